@@ -63,6 +63,14 @@ class Tup(V):
 
 
 @dataclass(frozen=True)
+class Rec(Tup):
+    """An instance of a plain record class (NamedTuple / dataclass without __init__): a tuple whose items have names."""
+
+    names: tuple = ()
+    cls: Any = None
+
+
+@dataclass(frozen=True)
 class UList(V):
     elem: Any
 
@@ -819,6 +827,16 @@ class KindInterp:
     def getattr(self, base: Any, attr: str, node: ast.AST, env: dict) -> Any:
         if isinstance(base, (NonLin, Unknown)):
             return base
+        if isinstance(base, Rec):
+            if attr in base.names:
+                return base.items[base.names.index(attr)]
+            r = self.table.resolve(base.cls, attr) if base.cls is not None else None
+            if r is not None and isinstance(r.node, ast.FunctionDef):
+                fn = Fn(r.node, {}, bound=(base,), owner=r.owner)
+                if r.is_property or any(ast.unparse(d) == 'property' for d in r.node.decorator_list):
+                    return self.call_fn(fn, [], {}, node)
+                return fn
+            return Unknown(f'attribute {attr} of a {base.cls.name if base.cls is not None else "record"}')
         if isinstance(base, Obj):
             return self.obj_attr(base, attr, node)
         if isinstance(base, Op):
@@ -1064,9 +1082,27 @@ class KindInterp:
                     v = Lin('Gen')
                 out = join(out, v)
             return out if out is not None else Py()
+        names = self._record_fields(cls)
+        if names is not None and not any(isinstance(a, StarArg) for a in args) and len(args) <= len(names) and all(k in names for k in kwargs):
+            items = dict(zip(names, args))
+            items.update(kwargs)
+            if set(items) == set(names):
+                return Rec(tuple(items[n] for n in names), tuple(names), cls)
         if all(self.is_static(v) for v in vals):
             return Py(f'{cls.name} instance')
         return Unknown(f'construction of {cls.name} from {[describe(v) for v in vals]}')
+
+    def _record_fields(self, cls: ClassInfo) -> list[str] | None:
+        ext = {b.split('.')[-1] for k in cls.mro for b in k.external_bases}
+        decos = {d.split('.')[-1] for d in cls.decorators}
+        if ('NamedTuple' not in ext and 'dataclass' not in decos) or any('__init__' in k.own or '__new__' in k.own for k in cls.mro):
+            return None
+        names: list[str] = []
+        for k in reversed(cls.mro):
+            for f in k.own_fields:
+                if f.name not in names:
+                    names.append(f.name)
+        return names or None
 
     def method(self, m: 'MethodOf', args: list[Any], kwargs: dict[str, Any], e: ast.Call) -> Any:
         base, name = m.base, m.name
